@@ -281,7 +281,7 @@ def writer_rows(repo: Repo, ci: ClassInfo, fn: ast.FunctionDef, qual: Optional[s
         recv = {"module": mod_k, "self.module": mod_k}
     except Exception:
         pass
-    fn = inline.normalize(repo, ci, fn, receivers=recv)
+    fn = inline.normalize(repo, ci, fn, aliases=True, receivers=recv)
 
     def handle_yield(y: ast.AST, env, guards, loops):
         if isinstance(y, ast.YieldFrom):
